@@ -18,6 +18,8 @@ import subprocess
 import sys
 import warnings
 
+import numpy as np
+
 from .. import boot, gen_map, terms
 from ..acc import Acc
 
@@ -25,7 +27,7 @@ ID = "C04"
 LEVEL = "exploration"
 TECHNIQUE = "bounded-exhaustive enumeration of MapSpec pipelines x persisting storages x load histories, observed in the writing interpreter and in a fresh interpreter started after the writer (and its managers) exited"
 RULE = ("G-MAP pipelines (all 1-function pipelines with one, two or three outputs; 2-function pipelines with a single-output first function whose second function consumes only `a`; thorough: every 2-function pipeline whose second function consumes `a` alone or `a` and its sibling `b`) x storage "
-        "{file_array, dict+persist, shared_memory_dict+persist, per-output mix} (+ for the one-output 1-function pipelines: a run with cleanup=False into a folder that holds stale input files of an attempt that died before run_info.json existed; and, with file_array and dict storage, a run into a folder that holds a COMPLETE earlier run on larger inputs which the writing process has already loaded through all three entry points; and, for the mapped one-output 1-function pipelines, the run made on a REAL process pool with shared_memory_dict and file_array storage; and a run whose list inputs hold instances of a class defined only in the writer's __main__) x load history = a de Bruijn sequence over {load_outputs(all), RunInfo.load, load_xarray_dataset} "
+        "{file_array, dict+persist, shared_memory_dict+persist, per-output mix} (+ for the one-output 1-function pipelines: a run with cleanup=False into a folder that holds stale input files of an attempt that died before run_info.json existed; and, with file_array and dict storage, a run into a folder that holds a COMPLETE earlier run on larger inputs which the writing process has already loaded through all three entry points; and, for the mapped one-output 1-function pipelines, the run made on a REAL process pool with shared_memory_dict and file_array storage; and a run whose list inputs hold instances of a class defined only in the writer's __main__; a run in which a root that has a default is supplied all the same - the recorded defaults are the pipeline's) x load history = a de Bruijn sequence over {load_outputs(all) (the loaded lists / object arrays are scribbled over afterwards: the next load reads the folder again), RunInfo.load, load_xarray_dataset} "
         "in which every entry point follows every other one (quick: ORXO in the writer and again in the fresh interpreter; thorough: a de Bruijn sequence with every ordered pair), executed first in the writing process and then again in a fresh interpreter. "
         "non-trivial = distinct (pipeline shape, storage assignment) with a mapped axis, observed in the fresh interpreter")
 ASSUMPTIONS = ["the fresh interpreter is a child process started after the writer process has exited (all manager processes of the run are gone)",
@@ -78,7 +80,17 @@ def observe(step, folder, names):
             vals = load_outputs(*names, run_folder=folder)
             if len(names) == 1:
                 vals = [vals]
-            return {"outputs": {n: [terms.T(v), list(terms.shape_of(v)) if not hasattr(v, "shape") else list(v.shape)] for n, v in zip(names, vals)}}
+            res = {"outputs": {n: [terms.T(v), list(terms.shape_of(v)) if not hasattr(v, "shape") else list(v.shape)] for n, v in zip(names, vals)}}
+            # the caller owns what it was given: scribble over the loaded objects - a later load has to read the folder again
+            for v in vals:
+                try:
+                    if isinstance(v, np.ndarray) and v.size and v.dtype == object:
+                        v.flat[0] = "SCRIBBLE"
+                    elif isinstance(v, list) and v:
+                        v[0] = "SCRIBBLE"
+                except Exception:  # noqa: BLE001, S110  (read-only views etc.)
+                    pass
+            return res
         if step == "R":
             ri = RunInfo.load(folder)
             return {"runinfo": runinfo_fields(ri)}
@@ -158,6 +170,11 @@ def writer_main(jobfile):
                 if not hasattr(_main, "OnlyInWriter"):
                     exec("class OnlyInWriter(str):\n    pass\n", _main.__dict__)  # noqa: S102
                 inputs = {k_: ([_main.OnlyInWriter(e) for e in v_] if isinstance(v_, list) else v_) for k_, v_ in inputs.items()}
+            if case.get("shadowed_default"):
+                # a root that has a DEFAULT and is supplied all the same: the folder records every default of the pipeline
+                r0 = sorted(inputs)[0]
+                v0 = inputs[r0]
+                p.update_defaults({r0: [f"d-{e}" for e in v0] if isinstance(v0, list) else f"d-{v0}"})
             if case.get("prior") == "stale-inputs":
                 # the folder of an earlier attempt that died after writing (other) inputs and before run_info.json existed,
                 # continued with cleanup=False: what the folder records afterwards must be THIS run's inputs
@@ -216,6 +233,7 @@ def writer_main(jobfile):
             expect = {"outputs": {o: terms.T(r[o].output) for o in names}, "runinfo": runinfo_fields(created["ri"]), "names": names}
             # what the run was GIVEN (RunInfo.create may already hold wrong values if the inputs were mangled on the way in)
             expect["runinfo"]["inputs"] = {n: terms.T(v) for n, v in sorted(inputs.items())}
+            expect["runinfo"]["defaults"] = {n: terms.T(v) for n, v in sorted(p.defaults.items())}  # likewise: what the pipeline HAS
             # the same-process xarray observation is the expectation for the fresh process
             expect["xarray"] = observe("X", folder, names)["xarray"]
             with open(os.path.join(job["base"], f"expect{k}.json"), "w") as fh:
@@ -315,6 +333,12 @@ def specs_for(tier):
             yield s  # thorough: every consumer of `a` alone or of `a` and its sibling `b`
 
 
+def scope_free_default_ok(spec):
+    """the first root (by name) is a scalar or a 1-D list input: a default of the same form can be given"""
+    r0 = sorted(spec["roots"])[0]
+    return len(spec["roots"][r0]) <= 1
+
+
 def plan(tier, seed):
     n = 48 if tier == "quick" else 480
     us = [("pipelines<=2-functions", ("batch", tier, c, n)) for c in range(n)]
@@ -356,6 +380,9 @@ def run_unit(unit):
         if len(spec["funcs"]) == 1 and len(spec["funcs"][0]["outs"]) == 1 and any(len(a) == 1 for a in spec["roots"].values()):
             cases.append({"spec": spec, "storage": "file_array", "main_class": True})
             keys.append((gen_map.key(spec), "main-class") if gen_map.nontrivial(spec) else None)
+        if len(spec["funcs"]) == 1 and len(spec["funcs"][0]["outs"]) == 1 and scope_free_default_ok(spec):
+            cases.append({"spec": spec, "storage": "file_array", "shadowed_default": True})
+            keys.append((gen_map.key(spec), "shadowed-default") if gen_map.nontrivial(spec) else None)
         if len(spec["funcs"]) == 1 and len(spec["roots"]) >= 2:
             # scoped names ("s.x", "s.y"): inputs and outputs whose file names contain a dot
             cases.append({"spec": spec, "storage": "file_array", "scope": "s"})
@@ -374,7 +401,7 @@ def run_unit(unit):
 
 
 def replay(art):
-    case = {k: art[k] for k in ("spec", "storage", "scope", "prior", "ishape_int", "pool", "main_class") if k in art}
+    case = {k: art[k] for k in ("spec", "storage", "scope", "prior", "ishape_int", "pool", "main_class", "shadowed_default") if k in art}
     res = run_batch([case], art.get("seq") or de_bruijn("ORX", 2))
     return [s for s, _ in res[0]]
 
